@@ -67,6 +67,40 @@ Proof.
   - (* EParen *)
     destruct (IH e ltac:(lia) Hc) as (A & B & C).
     cbn [full_paren core_expr wpx strip_spans strip_paren]. rewrite A, B, C. repeat split; reflexivity.
+  - (* EArray *)
+    assert (Hi : forall x, In x items -> core_expr x = true ->
+              core_expr (full_paren x) = true /\ wpx 0 true (full_paren x) = true /\
+              strip_paren (strip_spans (full_paren x)) = strip_paren (strip_spans x)).
+    { intros x Hin Hx. pose proof (lsum_in esize items x Hin).
+      destruct (IH x ltac:(lia) Hx) as (A & B & C). rewrite A, B, C. repeat split; reflexivity. }
+    cbn [full_paren core_expr wpx strip_spans strip_paren].
+    assert (E1 : forallb core_expr (map full_paren items) = true).
+    { apply (forallb_map_in core_expr core_expr full_paren); [intros x Hin Hx; apply (Hi x Hin Hx)|exact Hc]. }
+    assert (E2 : forallb (wpx 0 true) (map full_paren items) = true).
+    { apply (forallb_map_in core_expr (wpx 0 true) full_paren); [intros x Hin Hx; apply (Hi x Hin Hx)|exact Hc]. }
+    assert (E3 : map strip_paren (map strip_spans (map full_paren items)) = map strip_paren (map strip_spans items)).
+    { rewrite !map_map. apply map_ext_in. intros x Hin. apply Hi; [exact Hin|].
+      rewrite forallb_forall in Hc. apply (Hc x Hin). }
+    rewrite E1, E2, E3. repeat split; reflexivity.
+  - (* EArrayComp *)
+    apply andb_true_iff in Hc as [Hc Hcs]. apply andb_true_iff in Hc as [Hcx Hok].
+    destruct (IH e ltac:(lia) Hcx) as (A1 & B1 & C1).
+    assert (Hs : forall sc, In sc specs -> score sc = true ->
+              score (fp_spec sc) = true /\ wp_spec (fp_spec sc) = true /\
+              unp_spec (strip_spec (fp_spec sc)) = unp_spec (strip_spec sc)).
+    { intros sc Hin Hsc. pose proof (lsum_in spec_size specs sc Hin) as Hle.
+      destruct sc as [v y|y]; cbn [score fp_spec wp_spec strip_spec unp_spec spec_size] in *;
+        destruct (IH y ltac:(lia) Hsc) as (A & B & C); rewrite A, B, C; repeat split; reflexivity. }
+    cbn [full_paren core_expr wpx strip_spans strip_paren andb].
+    assert (E0 : specs_ok (map fp_spec specs) = true) by (destruct specs as [|[|] ?]; cbn in *; congruence).
+    assert (E1 : forallb (fun c => match c with CFor _ y | CIf y => core_expr y end) (map fp_spec specs) = true).
+    { apply (forallb_map_in score score fp_spec); [intros a Hin Hac; apply (Hs a Hin Hac)|exact Hcs]. }
+    assert (E2 : forallb wp_spec (map fp_spec specs) = true).
+    { apply (forallb_map_in score wp_spec fp_spec); [intros a Hin Hac; apply (Hs a Hin Hac)|exact Hcs]. }
+    assert (E3 : map unp_spec (map strip_spec (map fp_spec specs)) = map unp_spec (map strip_spec specs)).
+    { rewrite !map_map. apply map_ext_in. intros a Hin. apply Hs; [exact Hin|].
+      rewrite forallb_forall in Hcs. apply (Hcs a Hin). }
+    rewrite A1, !B1, C1, E0, E1, E2, E3. repeat split; reflexivity.
   - (* EField *)
     destruct (IH e ltac:(lia) Hc) as (A & B & C).
     cbn [full_paren core_expr wpx strip_spans strip_paren]. rewrite A, !B, C. repeat split; reflexivity.
